@@ -9,7 +9,7 @@
 """
 import copy
 
-from ..asmcore import explore, replay_all, replay, kinds_of, insert_bytes, tags_for
+from ..asmcore import explore_replay, replay, kinds_of, insert_bytes, tags_for
 from ..drive import pmap
 
 
@@ -72,40 +72,39 @@ def main(run):
                 "export, one ending early with junk behind .end), 1-2 linked files; each accepted program also as unrolled / inlined / "
                 "concatenated variant; non-trivial = accepted program containing .repeat, insert_file, .end or .include")
     bases = [512, 1026]
-    recs, inc = explore(run, "StructAlphabet", "StructIncFiles", 3 if thorough else 2, 1, bases,
-                        label=f"AsmCore struct, 1 file x {3 if thorough else 2} stmts (exhaustive)")
-    tasks = replay_all(run, recs, inc, {"harness_link": True}, nontrivial)
-    if not thorough:
-        recs0, inc0 = explore(run, "StructAlphabet", "StructIncFiles", 4, 1, bases, simulate=600, depth=5, seed=run.seed + 23,
-                              label="AsmCore struct simulation (1 file, <= 4 stmts)")
-        tasks += replay_all(run, recs0, inc0, {"harness_link": True}, nontrivial)
-    recsb, incb = explore(run, "StructBigAlphabet", "StructIncFiles", 3 if thorough else 2, 1, bases,
-                          label="AsmCore struct, large repeat counts 17/33/40 (exhaustive)")
-    tasks += replay_all(run, recsb, incb, {"harness_link": True}, nontrivial)
-    recs1, inc1 = explore(run, "StructAlphabet", "StructIncFiles", 2, 2, [512], extra=("concat",), timeout=3000,
-                          simulate=None if thorough else 800, depth=None if thorough else 6, seed=run.seed + 2,
-                          label="AsmCore struct, 2 files x 2 stmts with LinkIsConcatenation (" + ("exhaustive" if thorough else "simulation") + ")")
-    tasks += replay_all(run, recs1, inc1, {"harness_link": True}, nontrivial)
-    recs2, inc2 = explore(run, "StructAlphabet", "StructIncFiles", 5, 2, bases, simulate=(5000 if thorough else 250), depth=11,
-                          seed=run.seed + 17, label="AsmCore struct simulation (<= 5 stmts x 2 files)")
-    tasks += replay_all(run, recs2, inc2, {"harness_link": True}, nontrivial)
-    # transformed variants against the ORIGINAL prediction
-    vtasks, names = [], []
-    for rec, inc_, opts in tasks:
-        for name, v in variants(rec):
-            vtasks.append((v, inc_, dict(opts, check_syms=(name != "insert-as-bytes"))))
-            names.append((name, rec))
+    opts = {"harness_link": True}
     counts = {}
-    for (name, orig), (v, _, _), problems in zip(names, vtasks, pmap(replay, vtasks)):
-        run.add_eval(len(v["runs"]))
-        counts[name] = counts.get(name, 0) + 1
-        run.add_nontrivial((name, repr(orig["files"])))
-        for p in problems:
-            run.violation(f"{name} variant disagrees with the prediction for the program as written: {p['kind']}: {p['what']} | "
-                          f"{' // '.join(p['sources'].values())[:300]!r}",
-                          {"variant": name, "problem": {k: x for k, x in p.items() if k not in ("sources", "fs")},
-                           "abstract_original": orig["files"], "abstract_variant": v["files"]},
-                          files=p["sources"], tags=tags_for(orig, p))
+
+    def variants_of(tasks_):
+        """transformed variants against the ORIGINAL prediction"""
+        vtasks, names = [], []
+        for rec, inc_, o in tasks_:
+            for name, v in variants(rec):
+                vtasks.append((v, inc_, dict(o, check_syms=(name != "insert-as-bytes"))))
+                names.append((name, rec))
+        for (name, orig), (v, _, _), problems in zip(names, vtasks, pmap(replay, vtasks)):
+            run.add_eval(len(v["runs"]))
+            counts[name] = counts.get(name, 0) + 1
+            run.add_nontrivial((name, repr(orig["files"])))
+            for p in problems:
+                run.violation(f"{name} variant disagrees with the prediction for the program as written: {p['kind']}: {p['what']} | "
+                              f"{' // '.join(p['sources'].values())[:300]!r}",
+                              {"variant": name, "problem": {k: x for k, x in p.items() if k not in ("sources", "fs")},
+                               "abstract_original": orig["files"], "abstract_variant": v["files"]},
+                              files=p["sources"], tags=tags_for(orig, p))
+
+    def go(alphabet, stmts, nfiles, bs, label, **kw):
+        t, _ = explore_replay(run, alphabet, "StructIncFiles", stmts, nfiles, bs, opts, nontrivial, after=variants_of, label=label, **kw)
+        return t
+
+    tasks = go("StructAlphabet", 3 if thorough else 2, 1, bases, f"AsmCore struct, 1 file x {3 if thorough else 2} stmts (exhaustive)")
+    if not thorough:
+        tasks += go("StructAlphabet", 4, 1, bases, "AsmCore struct simulation (1 file, <= 4 stmts)", simulate=600, depth=5, seed=run.seed + 23)
+    tasks += go("StructBigAlphabet", 3 if thorough else 2, 1, bases, "AsmCore struct, large repeat counts 17/33/40 (exhaustive)")
+    tasks += go("StructAlphabet", 2, 2, [512], "AsmCore struct, 2 files x 2 stmts with LinkIsConcatenation (" + ("exhaustive" if thorough else "simulation") + ")",
+                extra=("concat",), timeout=6000, simulate=None if thorough else 800, depth=None if thorough else 6, seed=run.seed + 2)
+    tasks += go("StructAlphabet", 5, 2, bases, "AsmCore struct simulation (<= 5 stmts x 2 files)", simulate=(5000 if thorough else 250), depth=11,
+                seed=run.seed + 17)
     run.note("variants_checked", counts)
     ex = [t for t in tasks if nontrivial(t[0]) and "repeat" in kinds_of(t[0])]
     if ex:
